@@ -66,7 +66,7 @@ CaseResult run_static(const RunCtx &ctx, TapeReader &t, unsigned size_hint) {
     GenOpts o;
     o.eps = Eps;
     o.size_hint = size_hint;
-    if ((ctx.prop == "C01" || ctx.prop == "C02") && ctx.mode != "mem") o.max_n = size_t(1) << 23;
+    if ((ctx.prop == "C01" || ctx.prop == "C02") && ctx.mode != "mem") o.max_n = size_t(1) << 23, o.allow_giant = true;
     o.xkeys = ctx.x("xkeys");
     o.xthreads = ctx.x("xthreads");
     std::vector<K> keys = gen_keys<K>(t, o, meta);
